@@ -53,6 +53,23 @@ pub fn producers<A: Sx>(content: &[A], other: &[A], offsets: &[usize], edits: bo
         let c: Seq<A> = pl.view().into();
         v.push(p("From<&SeqSlice>(same codec)", c, content));
     }
+    // FromIterator<&SeqSlice> for Vec<Seq>: owned sequences collected out of windows()/chunks() of a parent
+    if n >= 1 {
+        for &s in offsets.iter().take(3) {
+            let pl = place(content, s, 0);
+            // windows(n) of the flanked parent: the (s)-th window is the content
+            let ws: Vec<Seq<A>> = pl.parent.windows(n).collect();
+            if let Some(w) = ws.into_iter().nth(s) {
+                v.push(p(format!("windows(n).collect::<Vec<Seq>>()[{s}]"), w, content));
+            }
+            // chunks(n) of a parent that starts with s junk symbols followed by content: not chunk-aligned unless s % n == 0,
+            // so take chunks of the slice that starts at s
+            let cs: Vec<Seq<A>> = pl.parent[s..].chunks(n).collect();
+            if let Some(c) = cs.into_iter().next() {
+                v.push(p(format!("slice@{s}.chunks(n).collect::<Vec<Seq>>()[0]"), c, content));
+            }
+        }
+    }
     // the (unstable) bit-level constructors: From<&BitSlice> at an offset inside model words, From<BitVec>
     {
         use bitvec::prelude::*;
